@@ -35,12 +35,14 @@ RULE = ("histories = sequence of 0..4 prior operations {construct, encode, encod
         "equal-valued component object (page, body, header, title, footnote, source) with an earlier document, "
         "followed by constructing and encoding a target; all histories of length <=1 (quick) / <=2 (thorough) "
         "enumerated, longer ones sampled; plus edit histories: the target object is built and encoded with other "
-        "texts, its text components are then edited in place to the pool values and it is encoded again. non-trivial = >=1 prior operation; distinct by history hash")
+        "texts, its text components are then edited in place to the pool values and it is encoded again; and derive "
+        "histories: an encoded predecessor (other texts, conversion, paper, data) is turned into the pool document "
+        "with model_copy(update=...) on the document and every component. non-trivial = >=1 prior operation; distinct by history hash")
 ASSUMPTIONS = ["a fresh `python -c` interpreter importing rtflite from the working tree defines the reference output",
                "sharing is only exercised between documents whose shared component has equal user-given values"]
 DECIDING = ["histories_run", "targets_compared", "encodes_observed", "df_snapshots_compared",
             "fresh_interpreter_baselines", "shared_component_histories", "after_failed_encode_histories",
-            "edit_in_place_histories"]
+            "edit_in_place_histories", "derived_with_model_copy_histories"]
 FLOOR = {"quick": 1500, "thorough": 20000}
 EXHAUSTIVE_NOTE = {"quick": "all histories of length <=1 (pool docs x 3 ops x pool targets x sharing on/off); all edit histories of length <=1",
                    "thorough": "all histories of length <=1 over the whole pool (sharing on/off), all histories of length 2 "
@@ -166,6 +168,12 @@ def pool():
     P["pbc_m"] = {"kind": "multi", "multi_header": "nested", "title": TT, "share_section_bodies": True,
                   "sections": [{"df": P["pbc_a"]["df"], "body": dict(PBC), "colheader": "none"},
                                {"df": P["pbc_b"]["df"], "body": dict(PBC), "colheader": "none"}]}
+    # three-section documents on different paper (a section that is neither the first nor the last)
+    for nm, pg in (("multi3_p", {"col_width": 6.0}), ("multi3_l", {"orientation": "landscape", "col_width": 9.0})):
+        P[nm] = {"kind": "multi", "multi_header": "nested", "title": TT, "page": pg,
+                 "sections": [{"df": tagged(2, 2), "body": {}, "colheader": "default"},
+                              {"df": tagged(3, 3, base=2), "body": {}, "colheader": "default"},
+                              {"df": tagged(2, 2, base=5), "body": {}, "colheader": "none"}]}
     # the default colour spelled out ("black") next to real colours
     P["blk_a"] = {"kind": "table", "df": tagged(3, 3), "body": {"text_color": ["black", "red", "black"],
                                                                 "text_background_color": [["", "black", "wheat"]]},
@@ -203,6 +211,51 @@ def edited_variant(spec):
 
 EDITS = {n: edited_variant(POOL[n]) for n in NAMES}
 EDITS = {n: v for n, v in EDITS.items() if v is not None}
+
+
+def derived_from(spec):
+    """a predecessor of the pool document: other texts, other conversion setting, other paper, other data (all
+    grouping values equal, so it always encodes).  The pool document is then DERIVED from the encoded
+    predecessor with model_copy(update=...) on the document and on each component."""
+    import copy
+    v = edited_variant(spec) or copy.deepcopy(spec)
+    v.pop("post_assign", None)
+    v.pop("_raises", None)
+    for k in TEXT_COMPONENTS:
+        # the predecessor's texts are coloured only where the pool document's are
+        if isinstance(v.get(k), dict) and isinstance(spec.get(k), dict) and "text_color" not in spec[k]:
+            v[k].pop("text_color", None)
+
+    def other_df(dfs):
+        for c in dfs["cols"]:
+            if c["dtype"] != "str":
+                continue
+            if c["values"] and isinstance(c["values"][0], str) and c["values"][0][:1] == "d" and "c" in c["values"][0]:
+                c["values"] = [f"d{900 + r}c{c['values'][0].split('c')[-1]}" for r in range(len(c["values"]))]
+            else:
+                c["values"] = ["zz"] * len(c["values"])
+
+    def other_body(b):
+        if not isinstance(b.get("text_convert"), list):
+            b["text_convert"] = not b.get("text_convert", True)
+        # visible in every cell
+        b.setdefault("text_format", "bi")
+        b.setdefault("text_justification", "r")
+
+    if v.get("kind", "table") == "table":
+        other_df(v["df"])
+        other_body(v.setdefault("body", {}))
+    elif v.get("kind") == "multi":
+        for sec in v["sections"]:
+            sec["df"] = copy.deepcopy(sec["df"])
+            other_df(sec["df"])
+            sec["body"] = dict(sec.get("body", {}))
+            other_body(sec["body"])
+    v["page"] = dict(v.get("page", {}), width=7.5, height=10.0, margin=[0.8, 0.9, 1.0, 1.1, 0.6, 0.7])
+    return v
+
+
+DERIVS = {n: derived_from(POOL[n]) for n in NAMES}
 
 
 # ---------------------------------------------------------------- baselines
@@ -299,7 +352,17 @@ def edit_histories():
         yield {"prior": [[tgt, "enc"]], "target": tgt, "share": False, "edit": "enc"}
 
 
+def derive_histories():
+    for tgt in NAMES:
+        for op in ("enc", "enc2"):
+            yield {"prior": [], "target": tgt, "share": False, "edit": op, "how": "derive"}
+
+
 def random_history(rng):
+    if rng.random() < 0.08:
+        L = rng.choice([0, 1])
+        return {"prior": [[rng.choice(NAMES), rng.choice(OPS)] for _ in range(L)], "target": rng.choice(NAMES),
+                "share": False, "edit": rng.choice(["enc", "enc2", "new"]), "how": "derive"}
     if rng.random() < 0.12:
         L = rng.choice([0, 1, 2])
         return {"prior": [[rng.choice(NAMES), rng.choice(OPS)] for _ in range(L)], "target": rng.choice(sorted(EDITS)),
@@ -317,12 +380,12 @@ def random_history(rng):
 def plan(tier, seed):
     base = fresh_baselines()
     if tier == "quick":
-        enum = list(all_histories(1)) + list(edit_histories())
-        nrand = 1400
+        enum = list(all_histories(1)) + list(edit_histories()) + list(derive_histories())
+        nrand = 800
     else:
         enum = list(all_histories(1)) + [h for h in all_histories(2, share_modes=(False,), names=CORE)
                                          if len(h["prior"]) == 2]
-        enum += list(edit_histories())
+        enum += list(edit_histories()) + list(derive_histories())
         nrand = 40000
     k = 16
     descs = []
@@ -412,8 +475,27 @@ def run_history(h, baselines):
                         problems.append({"what": f"second encode of {name} differs from the first", "mech": None})
         name = h["target"]
         try:
-            doc, shared_any = construct(name, h.get("share"), EDITS[name] if h.get("edit") else None)
-            if h.get("edit"):
+            derive = h.get("how") == "derive"
+            doc, shared_any = construct(name, h.get("share"),
+                                        DERIVS[name] if derive else EDITS[name] if h.get("edit") else None)
+            if derive:
+                for _ in range({"new": 0, "enc": 1, "enc2": 2}[h["edit"]]):
+                    encode(doc, name, "encode of the predecessor")
+                from pydantic import BaseModel
+                tdoc = S.apply_post(rtf.RTFDocument(**S.build_components(POOL[name], tempfile.mkdtemp(dir=td))),
+                                    POOL[name])
+
+                def carry(cur, new):
+                    # the new value, but as a model_copy(update=...) of the old object where there is one
+                    if isinstance(cur, BaseModel) and isinstance(new, BaseModel) and type(cur) is type(new):
+                        return cur.model_copy(update={g: getattr(new, g) for g in type(new).model_fields})
+                    if isinstance(cur, list) and isinstance(new, list) and len(cur) == len(new):
+                        return [carry(a, b) for a, b in zip(cur, new)]
+                    return new
+                upd = {f: carry(getattr(doc, f), getattr(tdoc, f)) for f in type(tdoc).model_fields}
+                doc = doc.model_copy(update=upd)
+                counts["derived"] = counts.get("derived", 0) + 1
+            elif h.get("edit"):
                 for _ in range({"new": 0, "enc": 1, "enc2": 2}[h["edit"]]):
                     encode(doc, name, "encode before the edit")
                 # edit the text components in place, field by field, to the pool document's own values
@@ -516,6 +598,8 @@ def judge(ctx, h, res):
         return
     ctx.count("targets_compared")
     ctx.count("encodes_observed", res["counts"]["encodes"])
+    if res["counts"].get("derived"):
+        ctx.count("derived_with_model_copy_histories")
     if res["counts"].get("edited"):
         ctx.count("components_edited_in_place", res["counts"]["edited"])
         ctx.count("edit_in_place_histories")
